@@ -113,20 +113,21 @@ public:
 // that such code still runs under the scheduler instead of blocking for real (which would hang a run).
 class RecursiveMutex {
     Mutex m_;
-    int owner_ = -1;      // only read/written by the owner or under m_
-    int depth_ = 0;
+    ::std::atomic<int> owner_{-1};   // relaxed: other threads only compare it with their own id (no edge for TSan)
+    int depth_ = 0;                  // only touched by the owner
+    bool mine() const { int t = rt_tid(); return t >= 0 && owner_.load(::std::memory_order_relaxed) == t; }
 
 public:
     void lock() {
-        if (owner_ == rt_tid() && depth_ > 0) { ++depth_; return; }
-        m_.lock(); owner_ = rt_tid(); depth_ = 1;
+        if (mine()) { ++depth_; return; }
+        m_.lock(); owner_.store(rt_tid(), ::std::memory_order_relaxed); depth_ = 1;
     }
     bool try_lock() {
-        if (owner_ == rt_tid() && depth_ > 0) { ++depth_; return true; }
+        if (mine()) { ++depth_; return true; }
         if (!m_.try_lock()) return false;
-        owner_ = rt_tid(); depth_ = 1; return true;
+        owner_.store(rt_tid(), ::std::memory_order_relaxed); depth_ = 1; return true;
     }
-    void unlock() { if (--depth_ == 0) { owner_ = -1; m_.unlock(); } }
+    void unlock() { if (--depth_ == 0) { owner_.store(-1, ::std::memory_order_relaxed); m_.unlock(); } }
 };
 
 class TimedMutex : public Mutex {
